@@ -421,6 +421,7 @@ static void header_text(int pgno, uint8_t out[32]) {
 //  * with the gate closed nothing is announced and the cache does not change (audit of every page number
 //    transmitted, at the end of the run).
 enum { EXP_NONE = 0, EXP_MUST, EXP_MAY };
+enum { kRowsCompared = 9 };  // this world transmits rows 1-9 only (the probe pages 1-3); formatting all 25 rows costs throughput
 struct HdrEval { int kind = EXP_NONE, c = -1, orphan = -1, flips0 = 0; bool en = false; St::Image exp_new; };
 
 static void check_ttx_events() {
@@ -444,12 +445,12 @@ static void check_ttx_events() {
                 "in between: no VBI_EVENT_TTX_PAGE", pgno);
 }
 
-// does the cache show `want` for this page number (rows 1-23 compared as text)?  On a difference: class and detail.
+// does the cache show `want` for this page number (rows 1-9 compared as text)?  On a difference: class and detail.
 static bool cache_shows(int pgno, const St::Image& want, std::string& cls, std::string& why) {
   St& s = *g;
   vbi_page vp; vbi_bool ok;
   budget_begin("vbi_fetch_vt_page", 20000000);
-  { SutScope ss; ok = vbi_fetch_vt_page(s.dec, &vp, pgno, VBI_ANY_SUBNO, VBI_WST_LEVEL_1, 25, FALSE); }
+  { SutScope ss; ok = vbi_fetch_vt_page(s.dec, &vp, pgno, VBI_ANY_SUBNO, VBI_WST_LEVEL_1, kRowsCompared + 1, FALSE); }
   budget_end();
   s.content_checks++;
   char b[400];
@@ -459,7 +460,7 @@ static bool cache_shows(int pgno, const St::Image& want, std::string& cls, std::
   }
   bool good = true;
   if (!want.have) { good = false; cls = "oracle:ttx-cache-spurious"; why = "in the cache although no transmission of it passed while a handler requested TTX_PAGE"; }
-  for (int y = 1; y <= 23 && good; y++) {
+  for (int y = 1; y <= kRowsCompared && good; y++) {
     char shown[41], exp[41]; bool same = true;
     for (int col = 0; col < 40; col++) {
       unsigned u = vp.text[y * vp.columns + col].unicode;
@@ -535,7 +536,7 @@ static void model_header_post(const HdrEval& e, int mag, int pg, bool erase) {
     if (st) s.stored[c.pgno] = e.exp_new;
     s.ctx->log("ttx page %x #%d %s %s", c.pgno, c.serial, e.kind == EXP_MUST ? "must" : "may", st ? "stored" : "dropped");
   }
-  if (e.orphan >= 0) {
+  if (e.orphan >= 0 && e.en) {  // (with the gate closed: no event may be raised - checked - and the audit at the end covers the cache)
     const St::TxPage& o = s.txs[(size_t)e.orphan];
     if (e.kind == EXP_NONE || o.pgno != s.txs[(size_t)e.c].pgno) {
       St::Image old; { auto it = s.stored.find(o.pgno); if (it != s.stored.end()) old = it->second; }
@@ -564,7 +565,7 @@ static void model_header_post(const HdrEval& e, int mag, int pg, bool erase) {
 static void model_row(int mag, int y, const uint8_t chars[40]) {
   St& s = *g;
   int m = mag & 7;
-  if (s.on_air[m] < 0 || y < 1 || y > 24) return;  // rows behind a time filling header belong to no page
+  if (s.on_air[m] < 0 || y < 1 || y > kRowsCompared) return;  // rows behind a time filling header belong to no page
   St::TxRow r; r.y = y; r.en = s.ttx_on; memcpy(r.c, chars, 40);
   if (!r.en) s.rows_in_gap++;
   s.txs[(size_t)s.on_air[m]].rows.push_back(r);
